@@ -12,7 +12,9 @@ for sid in ids:
     if len(needs) > 330:
         needs = needs[:327] + '...'
     rows.append('| %s | %s | %s | %s |' % (sid, m['property'], needs,
-                'caught by `bin/check %s` (quick)' % m['property'] if r.get('detected') else 'NOT caught'))
+                'caught by `bin/check %s` (quick)' % m['property'] if r.get('detected')
+                else ('not judged: differs from HEAD only where the statement is ambiguous (see meta.json)' if m.get('unjudged_region')
+                      else 'out of reach (11.5c): ' + m['out_of_reach'][:90] if m.get('out_of_reach') else ('not run' if not r else 'NOT caught'))))
 st = json.load(open('/verif/selftest/RESULTS.json'))
 sys.path.insert(0, '/verif/selftest')
 from mutants import MUTANTS
@@ -22,6 +24,7 @@ for mid, prop, f, old, new in MUTANTS:
     status = 'caught by `bin/check %s` (quick)' % prop if r.get('detected') else ('already caught by the 57 baseline tests (not a candidate)' if 'skipped' in r else 'NOT caught')
     srows.append('| %s | %s | %s | %s |' % (mid, prop, f, status))
 ndet = sum(1 for i in ids if res.get(i, {}).get('detected'))
+nunj = sum(1 for i in ids if json.load(open(os.path.join(root, i, 'meta.json'))).get('unjudged_region'))
 # harmless changes (benign/)
 broot = '/verif/benign'
 bres = json.load(open(os.path.join(broot, 'RESULTS.json'))) if os.path.exists(os.path.join(broot, 'RESULTS.json')) else {}
@@ -92,7 +95,12 @@ is reported where the statement only says "an error", Debug output, buffer sizes
 faults is reported first).  Each compiles without warnings and passes the existing suite.
 `tools/benignscreen.py` applies each one, runs the existing suite and then the quick check of
 *every* property anchored in a file the patch touches (not only the one the agent saw), and expects
-exit 0 everywhere.  %d of %d are silent.
+exit 0 everywhere.  %d of %d are silent.  (The table shows the latest screen, run in parallel lanes with
+`tools/parseed.py --dir benign` after the generators learnt to use the literals of the tree under
+test - a harmless change that introduces new literals changes the generated inputs.  That run was
+limited to the property the change was written against and the first further one
+(`BENIGN_MAX_PROPS=2`); the screen before it, on the same 60 changes, ran every anchored property
+and was silent as well.)
 
 | id | property given | change (first line of the agent's note) | checks run and result |
 |---|---|---|---|
